@@ -143,7 +143,14 @@ pub fn run_c09(ctx: &Ctx, sink: &mut Sink) {
             let ok = !rng.chance(1, 8);
             let cmd: Vec<u8> = if ok { rec.clone() } else { b"/nonexistent/fu-cmd".to_vec() };
             let nargs = rng.below(4);
-            let tmpl: Vec<Vec<u8>> = (0..nargs).map(|_| template_arg(&mut rng)).collect();
+            let mut tmpl: Vec<Vec<u8>> = (0..nargs).map(|_| template_arg(&mut rng)).collect();
+            // a literal `+` argument is ordinary text unless it directly follows an argument that is exactly `{}`
+            let mut i = 0;
+            while i <= tmpl.len() {
+                let prev_is_braces = i > 0 && tmpl[i - 1] == b"{}";
+                if !prev_is_braces && rng.chance(1, 6) { tmpl.insert(i, b"+".to_vec()); i += 1; }
+                i += 1;
+            }
             let exec = format!("exec:{}:{}:{}:{}", dir as u8, ok as u8, hex(&cmd), hexjoin(&tmpl));
             let mut toks: Vec<String> = vec![];
             if rng.chance(1, 2) { toks.push("sorted".into()); }
@@ -166,6 +173,7 @@ pub fn run_c09(ctx: &Ctx, sink: &mut Sink) {
             if dir { tags.push("execdir"); }
             if !ok { tags.push("missing-command"); }
             if tmpl.iter().any(|a| a.windows(2).filter(|w| w == b"{}").count() >= 2) { tags.push("multi-braces"); }
+            if tmpl.iter().any(|a| a == b"+") { tags.push("plus-argument"); }
             sink.push(Case { req, imp, tags });
         }
         let _ = std::fs::remove_dir_all(&sc.dir);
